@@ -4,6 +4,7 @@
 -/
 import Fadl.Model.Capture
 import Fadl.Scope
+import Std.Data.String.ToNat
 namespace Fadl
 
 mutual
@@ -29,26 +30,79 @@ def noCalledLamL : List Expr → Bool
 end
 
 /-- a stack that substitutes nothing (only hiding frames) -/
-def inertStack (st : List Frame) : Prop := ∀ x e, stackGet x st ≠ some (some e)
+def inertStack (st : List Frame) : Prop := ∀ f ∈ st, ∀ p ∈ f, p.2 = Option.none
+
+theorem inert_frameGet {f : Frame} (h : ∀ p ∈ f, p.2 = Option.none) (x : String) (e : Expr) :
+    frameGet x f ≠ some (some e) := by
+  induction f with
+  | nil => simp [frameGet]
+  | cons p rest ih =>
+    obtain ⟨k, v⟩ := p
+    simp only [frameGet]
+    split
+    · have := h (k, v) List.mem_cons_self
+      simp only [] at this
+      subst this; simp
+    · exact ih (fun q hq => h q (List.mem_cons_of_mem _ hq))
+
+theorem inert_stackGet {st : List Frame} (h : inertStack st) (x : String) (e : Expr) : stackGet x st ≠ some (some e) := by
+  induction st with
+  | nil => simp [stackGet]
+  | cons f rest ih =>
+    simp only [stackGet]
+    cases hf : frameGet x f with
+    | none => exact ih (fun g hg => h g (List.mem_cons_of_mem _ hg))
+    | some r =>
+      simp only []
+      intro hc
+      cases hc
+      exact inert_frameGet (h f List.mem_cons_self) x e hf
+
+theorem inert_activeNames {st : List Frame} (h : inertStack st) : activeNames st = [] := by
+  unfold activeNames
+  rw [List.flatMap_eq_nil_iff]
+  intro f hf
+  rw [List.flatMap_eq_nil_iff]
+  intro p hp
+  rw [h f hf p hp]
+
+theorem hideLoop_nil (names taken : List String) : hideLoop [] names taken = (names, hideFrame names) := by
+  induction names generalizing taken with
+  | nil => rfl
+  | cons n ns ih => simp [hideLoop, ih, hideFrame]
+
+/-- with nothing being substituted, hiding renames nothing -/
+theorem hideRename_inert {st : List Frame} (h : inertStack st) (names body : List String) :
+    hideRename st names body = (names, hideFrame names) := by
+  simp [hideRename, inert_activeNames h, hideLoop_nil]
 
 theorem inert_push_hide (st : List Frame) (names : List String) (h : inertStack st) :
     inertStack (hideFrame names :: st) := by
-  intro x e
-  simp only [stackGet]
-  cases hf : frameGet x (hideFrame names) with
-  | none => exact h x e
-  | some r =>
-    simp only []
-    have : r = Option.none := by
-      clear h
-      induction names with
-      | nil => simp [hideFrame, frameGet] at hf
-      | cons n ns ih =>
-        simp only [hideFrame, List.map, frameGet] at hf
-        split at hf
-        · simp at hf; exact hf.symm
-        · exact ih hf
-    rw [this]; simp
+  intro f hf p hp
+  rcases List.mem_cons.mp hf with rfl | hf'
+  · simp only [hideFrame, List.mem_map] at hp
+    obtain ⟨n, _, rfl⟩ := hp
+    rfl
+  · exact h f hf' p hp
+
+theorem renameTarget_id_both :
+    (∀ (t : Expr) (names : List String), renameTarget (names.zip names) t = t) ∧
+    (∀ (ts : List Expr) (names : List String), renameTargetL (names.zip names) ts = ts) := by
+  have hl : ∀ (names : List String) (x : String), ((names.zip names).lookup x).getD x = x := by
+    intro names x
+    induction names with
+    | nil => rfl
+    | cons n ns ih =>
+      simp only [List.zip_cons_cons, List.lookup_cons]
+      by_cases hx : x = n
+      · subst hx; simp
+      · have : (x == n) = false := by simpa using hx
+        simp [this, ih]
+  apply Expr.size.mutual_induct
+    (motive_1 := fun t => ∀ (names : List String), renameTarget (names.zip names) t = t)
+    (motive_2 := fun ts => ∀ (names : List String), renameTargetL (names.zip names) ts = ts)
+  all_goals intros
+  all_goals simp_all [renameTarget, renameTargetL]
 
 /-- **C05 (frame)**: an expression without called lambdas is left exactly as it is (whatever is
     hidden); in particular a helper that cannot be inlined — it stayed a *name* — is left as a call
@@ -66,7 +120,7 @@ theorem resolveCalled_frame_both :
     | none => rfl
     | some r => cases r with
       | none => rfl
-      | some e => exact absurd h (hst x e)
+      | some e => exact absurd h (inert_stackGet hst x e)
   case case4 =>
     intro f args kwn kwv ihf iha ihk st hst h
     simp only [noCalledLam, Bool.and_eq_true] at h
@@ -80,18 +134,19 @@ theorem resolveCalled_frame_both :
     | _ => simp only [resolveCalled] at hf ⊢; simp only [resolveCalled, ha, hk, hf] <;> simp_all [resolveCalled]
   case case5 =>
     intro ps b ih st hst h
-    simp only [resolveCalled]
+    simp only [resolveCalled, hideRename_inert hst]
     rw [ih _ (inert_push_hide st ps hst) (by simpa [noCalledLam] using h)]
   case case11 =>
     intro kind e t i ifs a ihe _ ihi ihifs st hst h
     simp only [noCalledLam, Bool.and_eq_true] at h
-    simp only [resolveCalled]
-    rw [ihe _ (inert_push_hide st _ hst) h.1.1.1, ihi st hst h.1.2, ihifs _ (inert_push_hide st _ hst) h.2]
+    simp only [resolveCalled, hideRename_inert hst]
+    rw [ihe _ (inert_push_hide st _ hst) h.1.1.1, ihi st hst h.1.2, ihifs _ (inert_push_hide st _ hst) h.2,
+      renameTarget_id_both.1]
   all_goals intros
   all_goals simp_all [resolveCalled, resolveCalledL, noCalledLam, noCalledLamL]
 
 theorem resolveCalled_frame (e : Expr) (h : noCalledLam e = true) : resolveCalled [] e = e :=
-  resolveCalled_frame_both.1 e [] (by intro x e; simp [stackGet]) h
+  resolveCalled_frame_both.1 e [] (by intro f hf; cases hf) h
 
 /-- **C05 (helpers that cannot be inlined)**: a called lambda whose parameter count differs from the
     number of positional arguments stays a call of that lambda; its body and arguments are still
@@ -99,8 +154,88 @@ theorem resolveCalled_frame (e : Expr) (h : noCalledLam e = true) : resolveCalle
 theorem uninlinable_left (st : List Frame) (ps : List String) (b : Expr) (args : List Expr)
     (kwn : List String) (kwv : List Expr) (h : ps.length ≠ args.length) :
     resolveCalled st (.call (.lam ps b) args kwn kwv) =
-      .call (.lam ps (resolveCalled (hideFrame ps :: st) b)) (resolveCalledL st args) kwn (resolveCalledL st kwv) := by
+      .call (.lam (hideRename st ps (allNames b)).1 (resolveCalled ((hideRename st ps (allNames b)).2 :: st) b))
+        (resolveCalledL st args) kwn (resolveCalledL st kwv) := by
   simp [resolveCalled, h]
+
+/-! ### capture avoidance -/
+
+theorem freshCand_injective (x : String) {i j : Nat} (h : x ++ "_" ++ toString (i + 1) = x ++ "_" ++ toString (j + 1)) :
+    i = j := by
+  have h1 : toString (i + 1) = toString (j + 1) := by
+    have := congrArg String.toList h
+    simp only [String.toList_append, List.append_cancel_left_eq] at this
+    exact String.toList_inj.mp this
+  have := Nat.repr_injective h1
+  omega
+
+/-- `x_1, x_2, …`: one of the first `n + 1` candidates is not among `n` taken names -/
+theorem freshLocal_fresh (x : String) (taken : List String) : freshLocal x taken ∉ taken := by
+  unfold freshLocal
+  cases h : ((List.range (taken.length + 1)).map (fun i => x ++ "_" ++ toString (i + 1))).find? (fun c => !taken.contains c) with
+  | some c =>
+    have := List.find?_some h
+    simpa using this
+  | none =>
+    exfalso
+    rw [List.find?_eq_none] at h
+    have hsub : ((List.range (taken.length + 1)).map (fun i => x ++ "_" ++ toString (i + 1))) ⊆ taken := by
+      intro c hc
+      have := h c hc
+      simpa using this
+    have hnd : ((List.range (taken.length + 1)).map (fun i => x ++ "_" ++ toString (i + 1))).Nodup := by
+      unfold List.Nodup
+      refine List.Pairwise.map _ ?_ (List.nodup_range (n := taken.length + 1))
+      intro i j hij hc
+      exact hij (freshCand_injective x hc)
+    have := hnd.length_le_of_subset hsub
+    simp only [List.length_map, List.length_range] at this
+    omega
+
+/-- **C05 (no capture of arguments)**: after `_visit_hiding`, no local name is a name that an argument being substituted
+    mentions: locals that were are renamed to names that are not (and not to each other, nor to a name the body uses) -/
+theorem hideLoop_avoids (used : List String) : ∀ (names taken : List String), (∀ u ∈ used, u ∈ taken) →
+    ∀ n' ∈ (hideLoop used names taken).1, n' ∉ used := by
+  intro names
+  induction names with
+  | nil => intro taken _ n' hn'; simp [hideLoop] at hn'
+  | cons n ns ih =>
+    intro taken hsub n' hn'
+    simp only [hideLoop] at hn'
+    split at hn'
+    · simp only [List.mem_cons] at hn'
+      rcases hn' with rfl | hn'
+      · intro hu
+        exact freshLocal_fresh n taken (hsub _ hu)
+      · exact ih (freshLocal n taken :: taken) (fun u hu => List.mem_cons_of_mem _ (hsub u hu)) n' hn'
+    · rename_i hnu
+      simp only [List.mem_cons] at hn'
+      rcases hn' with rfl | hn'
+      · simpa using hnu
+      · exact ih taken hsub n' hn'
+
+theorem hideRename_avoids (st : List Frame) (names body : List String) :
+    ∀ n' ∈ (hideRename st names body).1, n' ∉ activeNames st := by
+  intro n' hn'
+  exact hideLoop_avoids (activeNames st) names _ (fun u hu => by simp [hu]) n' hn'
+
+/-- a renamed local does not collide with a name the body mentions either (it would capture that one instead) -/
+theorem hideLoop_new_not_taken (used : List String) : ∀ (names taken : List String) (n n' : String),
+    (n, some (Expr.name n')) ∈ (hideLoop used names taken).2 → n' ∉ taken := by
+  intro names
+  induction names with
+  | nil => intro taken n n' h; simp [hideLoop] at h
+  | cons m ms ih =>
+    intro taken n n' h
+    simp only [hideLoop] at h
+    split at h
+    · simp only [List.mem_cons, Prod.mk.injEq, Option.some.injEq, Expr.name.injEq] at h
+      rcases h with ⟨_, rfl⟩ | h
+      · exact freshLocal_fresh m taken
+      · intro ht
+        exact ih (freshLocal m taken :: taken) n n' h (List.mem_cons_of_mem _ ht)
+    · simp only [List.mem_cons, Prod.mk.injEq, reduceCtorEq, and_false, false_or] at h
+      exact ih taken n n' h
 
 /-- a body that is just a parameter -/
 example : resolveCalled [] (.call (.lam ["x"] (.name "x")) [.attr (.name "e") "met"] [] []) = .attr (.name "e") "met" := by rfl
